@@ -212,6 +212,52 @@ def auto_format(body, where, prov, patterns):
     return "".join(out)
 
 
+def closure_contracts(body, specs, where, prov):
+    """class A: give the k-th closure literal `|params|` a typed header and an ensures; wrap an expression body in a block."""
+    for cs in specs or []:
+        hits = find_token_seq(body, cs["params"])
+        want = cs.get("count", 1)
+        if len(hits) != want:
+            raise LostAnchor("%s: closure `%s` found %d times, expected %d" % (where, cs["params"], len(hits), want))
+        idx = cs.get("index", 0)
+        a, b = hits[idx]
+        toks = code_tokens(body)
+        # body of the closure: from b to the delimiter that closes the enclosing call argument
+        k = next(i for i, t in enumerate(toks) if t[2] >= b)
+        if toks[k][1] == "{":
+            e = match_close(toks, k)
+            end = toks[e][3]
+            inner = body[toks[k][2]:end]
+            is_block = True
+        else:
+            j = k
+            while j < len(toks):
+                t = toks[j]
+                if t[0] == "punct" and t[1] in "([{":
+                    j = match_close(toks, j) + 1
+                    continue
+                if t[0] == "punct" and t[1] in ")]},;":
+                    break
+                j += 1
+            end = toks[j - 1][3]
+            inner = body[toks[k][2]:end]
+            is_block = False
+        ens = ", ".join(x.strip().rstrip(",") for x in cs["ensures"])
+        req = (" requires " + ", ".join(cs["requires"])) if cs.get("requires") else ""
+        new = "%s%s ensures %s %s" % (cs["typed"], req, ens, inner if is_block else "{ " + inner + " }")
+        body = body[:a] + new + body[end:]
+        prov.append({"cls": "A", "what": "closure contract on `%s`" % cs["params"], "text": cs["typed"] + " ensures " + ens})
+    return body
+
+
+def spec_twin(item, name, sig_override, where, prov):
+    """class A (ghost): a spec function whose body is the function's body text, verbatim (self -> x)."""
+    body = strip_comments(item.body)
+    body = re.sub(r"\bself\b", "x", body)
+    prov.append({"cls": "A", "what": "spec twin %s: body copied verbatim" % name})
+    return "spec fn %s%s %s" % (name, sig_override, body)
+
+
 def name_return(sig, ret):
     """class A: `-> T` becomes `-> (ret: T)` so that contracts can name the result."""
     toks = code_tokens(sig)
@@ -409,6 +455,19 @@ class Unit:
         p = os.path.join(VERIF, "contracts", rel)
         txt = open(p, encoding="utf-8").read()
         self.prov["includes"].append(rel)
+
+        def reveal(m):
+            # ghost hint generated from the current source: reveal every string literal of the named function
+            it = self.src(m.group(1)).find(m.group(2))
+            lits = []
+            for t in code_tokens(strip_comments(it.body)):
+                if t[0] == "str" and t[1] not in lits:
+                    lits.append(t[1])
+            for l in lits:
+                if "\\" in l or not l.startswith('"'):
+                    raise LostAnchor("REVEAL_LITERALS: literal with escapes: " + l)
+            return " ".join("reveal_strlit(%s); assert(%s@.len() == %d);" % (l, l, len(l) - 2) for l in lits)
+        txt = re.sub(r"/\*@REVEAL_LITERALS (\S+) (.+?)@\*/", reveal, txt)
         em.emit("// ---- %s ----" % rel, None)
         lem, cur = [], None
         for ln in txt.split("\n"):
@@ -446,8 +505,11 @@ class Unit:
             body = strip_comments(it.body)
             sig = apply_edits(sig, [e for e in spec.get("edit", []) if e.get("in") == "sig"], where, prov)
             body = apply_edits(body, [e for e in spec.get("edit", []) if e.get("in", "body") == "body"], where, prov)
+            body = closure_contracts(body, spec.get("closure"), where, prov)
             if spec.get("autofmt"):
                 body = auto_format(body, where, prov, self.fmt_patterns)
+            if spec.get("twin"):
+                em.emit(spec_twin(it, spec["twin"]["name"], spec["twin"]["sig"], where, prov), {"kind": "repo", "file": spec["file"], "line": a, "fn": label + " (twin)"})
             m = re.match(r"\s*(pub\s*(\([a-z:]+\))?\s+)", sig)
             if m:
                 # class X: visibility has no executable meaning inside the single-file crate
